@@ -79,7 +79,8 @@ InWindow(from, until, t) ==
 (* operation of a history carries values distinguishable from all earlier  *)
 (* ones (a field wrongly carried over or wrongly overwritten then shows).  *)
 
-WfBadCommon == {"badjson", "nosuffix", "nosigneddata", "reveal_mh", "reveal_long", "badjws",
+\* (noreveal: the request names no reveal value - the member is absent, empty or null; nothing is derived for it)
+WfBadCommon == {"badjson", "nosuffix", "nosigneddata", "noreveal", "reveal_mh", "reveal_long", "badjws",
                 "extrahdr", "extrahdr_b64true", "extrahdr_b64false", "extrahdr_crit", "algnone", "algdisallowed", "noalg", "nokey", "badkey", "crv",
                 "nonce", "payloadjson", "rsakey"}
 WfBad(type) ==
